@@ -188,6 +188,26 @@ def run(ctx):
         ctx.count('K-malformed', key=('int_in_list', k, info['count']))
         if r['files'] and info['attribute'] == 'coordinates':
             ctx.violation('integer-outside-its-code-was-written', {'program': apistream.strip_private(prog), **info})
+    # the other half of the property on VALID data of every source kind (inline / dict / structured packed and padded / HDF5, with casts):
+    # whatever write returns is accepted by the strict reader and every frame-data record decodes with the descriptors in the file
+    from props import c03 as _c03, c08 as _c08
+    import os
+    for k in range(20 if ctx.tier == 'quick' else 200):
+        spec, df, data = _c03.build_case(rng, k)
+        o = impl.outcome(lambda: impl.write_real(df, in_chunk=spec['in_chunk'], data=data))
+        if isinstance(data, str) and os.path.exists(data):
+            import gc
+            gc.collect()
+            os.remove(data)
+        ctx.count('K-valid-sources', key=(k, spec['kind']))
+        if o[0] != 'ok':
+            continue
+        det = {'kind': spec['kind'], 'rows': spec['rows'], 'channels': [(c['dtype'], c['width'], c['cast']) for c in spec['chans']]}
+        dfm = filemodel.read_file(ctx, o[1]['file'], spec['vrl'])
+        if not dfm.ok:
+            ctx.violation('returned-file-is-rejected-by-the-strict-reader', det)
+        else:
+            _c08.records_match_descriptors(ctx, dfm, det)
     for k in range(n):
         base, _ = apistream.base_program(rng, vrl=rng.choice([128, 8192]), explicit_origins=False)
         for s in base:
